@@ -66,6 +66,9 @@ def dict_key_sites(fn: Func, dname: str) -> List[Tuple[ast.AST, ast.AST]]:
     return out
 
 
+LATER_RULES = " Later rules: (R18.7) module is absolute only at level 0; (R18.8) __import__('a.b') returns a; (R18.9) import a.b is used whenever a is; (R18.10) = C05 R5.5 for the tracing module; (R18.11) duplicates = same module, name and statement list; (R18.12) imports under try are never moved."
+
+
 def check(prog: Program, tier: str) -> Result:
     res = Result(
         "C18",
@@ -83,6 +86,7 @@ def check(prog: Program, tier: str) -> Result:
             "correctness of origin tracing itself (depends on the file system, sys.path and importlib at run time)."),
         rule_text="instances = ast.ImportFrom constructions, grouping dictionaries keyed by module, textual import constructors",
     )
+    res.explanation += LATER_RULES
     res.trusted_base = ["CPython ast", "def-use helpers", "sa/pathcond.py"]
     n = 0
     for fn in prog.funcs.values():
